@@ -69,6 +69,12 @@ package codec
 //@   replay codec_unpadding
 //@   replay-assume len(src) <= 64
 //@   ensures [empty-input-is-a-padding-error] len(src) == 0 ==> result1 == ErrPaddingSize && result0 == nil
-//@   ensures [padding-cut] len(src) > 0 && result1 == nil ==> len(result0) == len(src) - src[len(src) - 1] && src[len(src) - 1] < len(src) && src[len(src) - 1] <= blockSize
-//@   ensures [unfitting-padding-is-an-error] len(src) > 0 && (src[len(src) - 1] >= len(src) || src[len(src) - 1] > blockSize) ==> result1 == ErrPaddingSize && result0 == nil
+//@   ensures [padding-cut] len(src) > 0 && result1 == nil ==> len(result0) == len(src) - src[len(src) - 1] && src[len(src) - 1] <= len(src) && src[len(src) - 1] <= blockSize
+//@   ensures [unfitting-padding-is-an-error] len(src) > 0 && (src[len(src) - 1] > len(src) || src[len(src) - 1] > blockSize) ==> result1 == ErrPaddingSize && result0 == nil
+// the inverse of pkcs5Padding for EVERY plain text, the empty one included: its cipher text is one block of nothing
+// but padding (16 bytes of 16), which unpads to the empty text - a correctly signed encrypted request with an empty
+// body is admitted like one with a body
+//@   replay-for all-padding-block-is-the-empty-text codec_unpadding_allpad
+//@   ensures [all-padding-block-is-the-empty-text] len(src) > 0 && src[len(src) - 1] == len(src) && src[len(src) - 1] <= blockSize ==> result1 == nil && len(result0) == 0
+//@   ensures [fitting-padding-is-cut] len(src) > 0 && src[len(src) - 1] <= len(src) && src[len(src) - 1] <= blockSize ==> result1 == nil
 //@   modifies nothing
